@@ -137,6 +137,14 @@ func packenvExec(c *Ctx, op string) {
 			solo[p] = resTok(id, err, pan)
 		}
 		if len(parts) > 1 {
+			// the caller's list need not be in path order
+			for i := len(parts) - 1; i > 0; i-- {
+				j := c.Intn(i + 1)
+				parts[i], parts[j] = parts[j], parts[i]
+			}
+			if parts[0].Path.String() < parts[len(parts)-1].Path.String() {
+				parts[0], parts[len(parts)-1] = parts[len(parts)-1], parts[0]
+			}
 			var got map[api.AbsPath]api.WareID
 			_, _, pan := safeCall(func() (api.WareID, error) {
 				var e error
